@@ -305,6 +305,13 @@ CHECKS.update({
 
 # ---- second wave (depth work): amendments appended to the level texts --------------------------------------
 _AMEND = {
+ "C19": " SECOND WAVE: history dimension (fresh vs warm Code), input iterators with error items (C19_input_after_error), argument "
+        "order for every arity 0..30 (C19_opcall_args_in_order). props/C19b.v (coq/c01vm2/NativeAsDef.v, closed): a native "
+        "binary-operator call with arbitrary operand queries has EXACTLY the denotation of the jq definition "
+        "`def d($y; $x): $x OP $y; d(b; a)` (same outputs in order and same ending incl. operand errors and breaks, every "
+        "environment/input/native instance, every fuel >= 1), i.e. the native evaluates its arguments as values with the LAST "
+        "argument in the outermost loop whereas a definition binds its FIRST $parameter outermost; lifted to the final compiled "
+        "code through C01vm_final_compile_correct; nullary natives likewise.",
  "C01": " SECOND WAVE: coq/c01vm2 extends the compile-correctness theorem to operands that need closures (oppushpc/opcallpc/opscope "
         "frames, generators in operands with the right operand in the outer loop) and to parameterless user-defined functions "
         "INCLUDING recursion (fuelled denotation: for every fuel on which the denotation terminates the VM terminates with the same "
